@@ -401,7 +401,12 @@ def run_world(case):
                dh=[str(child['pfs'])] if child['pfs'] else [])
     prfs_a = case.get('prf_a', [ike['prf']])
     prfs_b = case.get('prf_b', [ike['prf']])
-    confs = S.base_confs(a_over=over(prfs_a), b_over=over(prfs_b), a_entry=dict(ent), b_entry=dict(ent))
+    oa, ob_, ea, eb = over(prfs_a), over(prfs_b), dict(ent), dict(ent)
+    if 'dh_a' in case:      # several groups in different orders of preference: INVALID_KE_PAYLOAD retries on the way
+        oa['dh'], ob_['dh'] = [str(g) for g in case['dh_a']], [str(g) for g in case['dh_b']]
+    if 'pfs_a' in case:
+        ea['dh'], eb['dh'] = [str(g) for g in case['pfs_a']], [str(g) for g in case['pfs_b']]
+    confs = S.base_confs(a_over=oa, b_over=ob_, a_entry=ea, b_entry=eb)
     seams.DH_LOG_ON = True
     del seams.DH_LOG[:]
     del seams.FORCED_DH_PRIVATE[:]
@@ -423,6 +428,13 @@ def run_world(case):
             seams.FORCED_DH_PRIVATE.extend(forced.get(what, []))
             if what in ('init', 'new-child'):
                 w.step(('acquire', who, 0, 0))
+            elif what == 'cross-child':        # both start a CREATE_CHILD_SA exchange before anything is delivered
+                w.step(('acquire', 'A', 0, 0))
+                w.step(('acquire', 'B', 0, 0))
+            elif what == 'cross-rekey':        # one rekeys a CHILD_SA while the other creates one
+                spi = [k[2] for k in sorted(ep.kernel.sad) if k[0] == str(ep.addrs[0])][0]
+                w.step(('expire', who, spi, False))
+                w.step(('acquire', 'B' if who == 'A' else 'A', 0, 0))
             elif what == 'rekey-child':
                 spi = [k[2] for k in sorted(ep.kernel.sad) if k[0] == str(ep.addrs[0])][0]
                 w.step(('expire', who, spi, False))
@@ -444,7 +456,8 @@ def run_world(case):
 
 
 EXPECT = {'init': ('ike-keys', 'child-keymat:piggyback'), 'new-child': ('child-keymat:ccsa',),
-          'rekey-child': ('child-keymat:ccsa',), 'rekey-ike': ('ike-keys-rekey',)}
+          'rekey-child': ('child-keymat:ccsa',), 'rekey-ike': ('ike-keys-rekey',),
+          'cross-child': ('child-keymat:ccsa',), 'cross-rekey': ('child-keymat:ccsa',)}
 
 
 def run_case(case):
@@ -681,6 +694,22 @@ def cases():
         for kind, zeros in kinds:
             out.append(mk('zero:%s-%d-dh%d' % (kind, zeros, g), 'zero-dh', ike=dict(dh=g), child=dict(pfs=g),
                           zero=(kind, zeros), zero_group=g, stages=('init:A', 'new-child:A', 'rekey-ike:B')))
+    # (6) two CREATE_CHILD_SA exchanges crossing on the wire (each endpoint answers the other's request while its own
+    # is outstanding), with and without PFS, on the first and on a rekeyed IKE_SA
+    for pfs in (None, 19, 14) if quick else (None,) + GROUPS:
+        out.append(mk('cross:pfs%s' % pfs, 'crossing', child=dict(pfs=pfs),
+                      stages=('init:A', 'cross-child:A', 'cross-rekey:A', 'cross-rekey:B', 'rekey-ike:B', 'cross-child:A',
+                              'cross-rekey:B')))
+    # (7) the first KE guess is refused (INVALID_KE_PAYLOAD) in IKE_SA_INIT, CREATE_CHILD_SA and the IKE_SA rekey: the keys
+    # come from the key pair of the retry.  Pairs of groups where the refused public value would also be accepted by
+    # the arithmetic of the other group (MODP into a larger MODP) are the ones that fail silently.
+    pairs = ((16, 14), (14, 16), (20, 19), (19, 20), (15, 14), (14, 19)) if quick else \
+        tuple((a, b) for a in GROUPS for b in GROUPS if a != b)
+    for a, b in pairs:
+        out.append(mk('ke-retry:%d-then-%d' % (a, b), 'ke-retry', ike=dict(dh=b), child=dict(pfs=b), dh_a=[a, b], dh_b=[b, a],
+                      pfs_a=[a, b], pfs_b=[b, a],
+                      stages=('init:A', 'new-child:A', 'rekey-child:A', 'rekey-ike:A', 'new-child:B', 'rekey-ike:B',
+                              'cross-child:A')))
     return out
 
 
